@@ -657,11 +657,12 @@ Qed.
 Inductive flush_res (S : list Z) (i : Z) (c : cfg) (syn : bool) (nc : nat) (g : gst) (r : st * list event * bool) : Prop :=
 | FlushRes : forall st' ev gm g',
     r = (st', ev, false) -> gevs S c true syn nc g ev gm -> gclosed gm g' -> ginv c S i g' st' ->
-    s_ncalls st' = (nc + nsg ev)%nat -> flush_res S i c syn nc g r.
+    s_ncalls st' = (nc + nsg ev)%nat -> stopped g' st' -> flush_res S i c syn nc g r.
 
-Lemma flush_res_nil : forall S i c syn g st, ginv c S i g st -> flush_res S i c syn (s_ncalls st) g (st, [], false).
+Lemma flush_res_nil : forall S i c syn g st, ginv c S i g st -> stopped g st ->
+  flush_res S i c syn (s_ncalls st) g (st, [], false).
 Proof.
-  intros. econstructor; [reflexivity|reflexivity|apply gclosed_refl|eassumption|].
+  intros. econstructor; [reflexivity|reflexivity|apply gclosed_refl|eassumption| |assumption].
   unfold nsg. cbn. lia.
 Qed.
 
@@ -670,14 +671,14 @@ Lemma fc_loop_gen : forall S i c syn t fuel st kn,
   flush_res S i c syn (s_ncalls st) (GLive kn false) (fc_loop fuel fullv st t).
 Proof.
   intros S i c syn t. induction fuel as [|f IH]; intros st kn HS Hinv.
-  - cbn [fc_loop]. apply flush_res_nil. exact Hinv.
+  - cbn [fc_loop]. apply flush_res_nil; [exact Hinv|exact I].
   - cbn [fc_loop].
-    destruct (h_queue (s_half st)) as [|p q'] eqn:Eq; [apply flush_res_nil; exact Hinv|].
-    destruct (pseen p <? t); [|apply flush_res_nil; exact Hinv].
+    destruct (h_queue (s_half st)) as [|p q'] eqn:Eq; [apply flush_res_nil; [exact Hinv|exact I]|].
+    destruct (pseen p <? t); [|apply flush_res_nil; [exact Hinv|exact I]].
     destruct (skip_flush_gen S i c syn st kn HS Hinv) as (s1 & ev1 & gm & g1 & He & Hg & Hgc & Hi & Hnc & Hst).
     rewrite He.
     destruct (h_closed (s_half s1)) eqn:Hcl1.
-    + econstructor; [reflexivity|exact Hg|exact Hgc|exact Hi|exact Hnc].
+    + econstructor; [reflexivity|exact Hg|exact Hgc|exact Hi|exact Hnc|exact Hst].
     + (* still open: the abstract state is live and open, and nothing was closed silently *)
       destruct g1 as [|kn1 [|]].
       * unfold stopped in Hst. congruence.
@@ -685,8 +686,150 @@ Proof.
       * assert (gm = GLive kn1 false).
         { destruct Hgc as [Hgc|(k & _ & Hgc)]; [symmetry; exact Hgc|discriminate]. }
         subst gm.
-        destruct (IH s1 kn1 HS Hi) as [s2 ev2 gm2 g2 He2 Hg2 Hgc2 Hi2 Hnc2].
-        rewrite He2. econstructor; [reflexivity| |exact Hgc2|exact Hi2|].
+        destruct (IH s1 kn1 HS Hi) as [s2 ev2 gm2 g2 He2 Hg2 Hgc2 Hi2 Hnc2 Hst2].
+        rewrite He2. econstructor; [reflexivity| |exact Hgc2|exact Hi2| |exact Hst2].
         -- eapply gevs_app; [exact Hg|]. rewrite <- Hnc. exact Hg2.
         -- rewrite Hnc2, Hnc, nsg_app. lia.
+Qed.
+
+Lemma ginv_stopped : forall c S i kn en st, ginv c S i (GLive kn en) st -> stopped (GLive kn en) st.
+Proof. intros c S i kn en st (_ & _ & H & _). unfold stopped. destruct en; [exact H|exact I]. Qed.
+
+Lemma flush_close_c2s_gen : forall S i c syn t tc st g,
+  zlen S < HIS -> ginv c S i g st -> stopped g st ->
+  flush_res S i c syn (s_ncalls st) g (flush_close_c2s fullv st t tc).
+Proof.
+  intros S i c syn t tc st g HS Hinv Hst. unfold flush_close_c2s.
+  destruct (h_closed (s_half st)) eqn:Hcl; [apply flush_res_nil; assumption|].
+  destruct g as [|kn [|]]; try (unfold stopped in Hst; congruence).
+  destruct (fc_loop_gen S i c syn t (Datatypes.S (length (h_queue (s_half st)))) st kn HS Hinv)
+    as [s1 ev1 gm1 g1 He Hg Hgc Hi Hnc Hst1].
+  rewrite He.
+  destruct (h_closed (s_half s1)) eqn:Hcl1.
+  { econstructor; [reflexivity|exact Hg|exact Hgc|exact Hi|exact Hnc|exact Hst1]. }
+  destruct (h_queue (s_half s1)) eqn:Eq1.
+  2:{ econstructor; [reflexivity|exact Hg|exact Hgc|exact Hi|exact Hnc|exact Hst1]. }
+  destruct (conn_last_seen s1 <? tc).
+  2:{ econstructor; [reflexivity|exact Hg|exact Hgc|exact Hi|exact Hnc|exact Hst1]. }
+  destruct g1 as [|kn1 [|]]; try (unfold stopped in Hst1; congruence).
+  assert (gm1 = GLive kn1 false).
+  { destruct Hgc as [Hgc|(k & _ & Hgc)]; [symmetry; exact Hgc|discriminate]. }
+  subst gm1.
+  destruct (close_c2s_gen S i c syn (s_ncalls s1) s1 kn1 Hi)
+    as (s2 & ev2 & gm2 & g2 & He2 & Hg2 & Hgc2 & Hi2 & Hn2 & Hnc2 & Hclosed2 & _).
+  rewrite He2. econstructor; [reflexivity| |exact Hgc2|exact Hi2| |].
+  - eapply gevs_app; [exact Hg|]. rewrite <- Hnc. exact Hg2.
+  - rewrite Hnc2, Hnc, nsg_app, Hn2. lia.
+  - unfold stopped. destruct g2 as [|kn2 [|]]; try exact Hclosed2.
+    destruct Hi2 as (_ & _ & Hc' & _). congruence.
+Qed.
+
+Lemma close_rev_gen : forall S i c syn nc st kn en,
+  ginv c S i (GLive kn en) st ->
+  exists st' ev g', close_rev st = (st', ev) /\ gevs S c true syn nc (GLive kn en) ev g' /\
+    ginv c S i g' st' /\ nsg ev = O /\ s_ncalls st' = s_ncalls st /\ stopped g' st'.
+Proof.
+  intros S i c syn nc st kn en (Hcfg & Hex & Hcl & Hop). unfold close_rev. rewrite Hcl.
+  destruct en.
+  - eexists. eexists. exists GDead. split; [reflexivity|]. split.
+    + cbn [gevs]. exists GDead. split; [cbn [gev]; split; [eauto|reflexivity]|reflexivity].
+    + split; [unfold ginv; cbn [s_cfg s_exists]; auto|]. split; [reflexivity|]. split; [reflexivity|].
+      unfold stopped. cbn [s_half]. exact Hcl.
+  - eexists. eexists. exists (GLive kn false). split; [reflexivity|]. split; [reflexivity|]. split.
+    + unfold ginv. cbn [s_cfg s_exists s_half]. auto.
+    + split; [reflexivity|]. split; [reflexivity|exact I].
+Qed.
+
+Lemma flush_res_trans : forall S i c syn nc g ev1 g1 st1 r,
+  gevs S c true syn nc g ev1 g1 -> s_ncalls st1 = (nc + nsg ev1)%nat ->
+  flush_res S i c syn (s_ncalls st1) g1 r ->
+  flush_res S i c syn nc g (let '(s2, ev2, pk) := r in (s2, ev1 ++ ev2, pk)).
+Proof.
+  intros S i c syn nc g ev1 g1 st1 r Hg Hnc [s2 ev2 gm2 g2 He2 Hg2 Hgc2 Hi2 Hnc2 Hst2]. subst r.
+  econstructor; [reflexivity| |exact Hgc2|exact Hi2| |exact Hst2].
+  - eapply gevs_app; [exact Hg|]. rewrite <- Hnc. exact Hg2.
+  - rewrite Hnc2, Hnc, nsg_app. lia.
+Qed.
+
+(* the result of an operation: events legal from g, possibly a silent close, the invariant again *)
+Inductive step_res (S : list Z) (i : Z) (c : cfg) (allow syn : bool) (nc : nat) (g : gst) (r : st * list event * bool) : Prop :=
+| StepRes : forall st' ev gm g',
+    r = (st', ev, false) -> gevs S c allow syn nc g ev gm -> gclosed gm g' -> ginv c S i g' st' ->
+    s_ncalls st' = (nc + nsg ev)%nat -> step_res S i c allow syn nc g r.
+
+Lemma flush_step : forall S i c syn nc g r, flush_res S i c syn nc g r -> step_res S i c true syn nc g r.
+Proof. intros S i c syn nc g r [st' ev gm g' H1 H2 H3 H4 H5 _]. econstructor; eauto. Qed.
+
+Lemma step_res_nil : forall S i c allow syn g st, ginv c S i g st -> step_res S i c allow syn (s_ncalls st) g (st, [], false).
+Proof.
+  intros. econstructor; [reflexivity|reflexivity|apply gclosed_refl|eassumption|].
+  unfold nsg. cbn. lia.
+Qed.
+
+(* FlushWithOptions / FlushCloseOlderThan *)
+Lemma flush_opts_gen : forall S i c syn t tc st g,
+  zlen S < HIS -> ginv c S i g st ->
+  step_res S i c true syn (s_ncalls st) g (flush_opts fullv st t tc).
+Proof.
+  intros S i c syn t tc st g HS Hinv. unfold flush_opts.
+  destruct g as [|kn en].
+  - pose proof Hinv as (Hcfg & Hex). rewrite Hex. cbn [negb]. apply step_res_nil. exact Hinv.
+  - pose proof Hinv as (Hcfg & Hex & Hcl & Hop). rewrite Hex. cbn [negb].
+    apply flush_step.
+    unfold flush_close_rev.
+    destruct (s_rev_closed st).
+    { change (let '(s2, ev2, pk) := flush_close_c2s fullv st t tc in (s2, [] ++ ev2, pk))
+        with (let '(s2, ev2, pk) := flush_close_c2s fullv st t tc in (s2, ev2, pk)).
+      pose proof (flush_close_c2s_gen S i c syn t tc st (GLive kn en) HS Hinv (ginv_stopped _ _ _ _ _ _ Hinv)) as Hr.
+      destruct (flush_close_c2s fullv st t tc) as [[s2 ev2] pk]. exact Hr. }
+    destruct (conn_last_seen st <? tc).
+    2:{ pose proof (flush_close_c2s_gen S i c syn t tc st (GLive kn en) HS Hinv (ginv_stopped _ _ _ _ _ _ Hinv)) as Hr.
+        destruct (flush_close_c2s fullv st t tc) as [[s2 ev2] pk]. exact Hr. }
+    destruct (close_rev_gen S i c syn (s_ncalls st) st kn en Hinv) as (s1 & ev1 & g1 & He & Hg & Hi & Hn & Hnc & Hst).
+    rewrite He.
+    apply (flush_res_trans S i c syn (s_ncalls st) (GLive kn en) ev1 g1 s1); [exact Hg|rewrite Hnc, Hn; lia|].
+    apply flush_close_c2s_gen; assumption.
+Qed.
+
+(* FlushAll *)
+Lemma fa_loop_gen : forall S i c syn fuel st g,
+  zlen S < HIS -> ginv c S i g st -> stopped g st ->
+  flush_res S i c syn (s_ncalls st) g (fa_loop fuel fullv st).
+Proof.
+  intros S i c syn. induction fuel as [|f IH]; intros st g HS Hinv Hst.
+  - cbn [fa_loop]. apply flush_res_nil; assumption.
+  - cbn [fa_loop].
+    destruct (h_closed (s_half st)) eqn:Hcl; [apply flush_res_nil; assumption|].
+    destruct g as [|kn [|]]; try (unfold stopped in Hst; congruence).
+    destruct (skip_flush_gen S i c syn st kn HS Hinv) as (s1 & ev1 & gm & g1 & He & Hg & Hgc & Hi & Hnc & Hst1).
+    rewrite He.
+    destruct Hgc as [Hgc|(k & Hgm & Hg1)].
+    + subst g1.
+      apply (flush_res_trans S i c syn (s_ncalls st) (GLive kn false) ev1 gm s1); [exact Hg|exact Hnc|].
+      apply IH; assumption.
+    + (* closed silently: the loop stops at the next test *)
+      subst gm g1. unfold stopped in Hst1.
+      assert (Hstop : fa_loop f fullv s1 = (s1, [], false)).
+      { destruct f as [|f']; cbn [fa_loop]; [reflexivity|]. rewrite Hst1. reflexivity. }
+      rewrite Hstop. rewrite app_nil_r.
+      econstructor; [reflexivity|exact Hg|right; eauto|exact Hi|exact Hnc|exact Hst1].
+Qed.
+
+Lemma flush_all_gen : forall S i c syn st g,
+  zlen S < HIS -> ginv c S i g st ->
+  step_res S i c true syn (s_ncalls st) g (flush_all fullv st).
+Proof.
+  intros S i c syn st g HS Hinv. unfold flush_all.
+  destruct g as [|kn en].
+  - pose proof Hinv as (Hcfg & Hex). rewrite Hex. cbn [negb]. apply step_res_nil. exact Hinv.
+  - pose proof Hinv as (Hcfg & Hex & Hcl & Hop). rewrite Hex. cbn [negb].
+    apply flush_step.
+    destruct (s_rev_closed st).
+    { pose proof (fa_loop_gen S i c syn (Datatypes.S (Datatypes.S (length (h_queue (s_half st))))) st (GLive kn en) HS Hinv
+                    (ginv_stopped _ _ _ _ _ _ Hinv)) as Hr.
+      destruct (fa_loop _ fullv st) as [[s2 ev2] pk]. exact Hr. }
+    destruct (close_rev_gen S i c syn (s_ncalls st) st kn en Hinv) as (s1 & ev1 & g1 & He & Hg & Hi & Hn & Hnc & Hst).
+    rewrite He.
+    apply (flush_res_trans S i c syn (s_ncalls st) (GLive kn en) ev1 g1 s1); [exact Hg|rewrite Hnc, Hn; lia|].
+    apply fa_loop_gen; assumption.
 Qed.
